@@ -4,6 +4,7 @@ The implementation side of the correspondence is the REAL quandaryd binary, buil
 source tree ($QV_REPO) into .build/target-qd, started on 127.0.0.1 with scratch configuration and
 zone files under .build/c31-scratch, sent SIGHUP after every step and probed over UDP."""
 import os
+import shutil
 import qv
 
 DAEMON_TARGET = os.path.join(qv.BUILD, "target-qd")
@@ -19,6 +20,7 @@ def build_daemon():
     if rc != 0 or not os.path.exists(DAEMON):
         qv.log(out[-3000:])
         raise RuntimeError(f"cannot build quandaryd from {qv.REPO}")
+    shutil.rmtree(SCRATCH, ignore_errors=True)
     os.makedirs(SCRATCH, exist_ok=True)
 
 
@@ -127,9 +129,9 @@ def gen(rng, tier):
     build_daemon()
     yield from fixed_cases()
     quick = tier == "quick"
-    for _ in range(260 if quick else 6000):
+    for _ in range(150 if quick else 6000):
         yield history(rng, 6)
-    for _ in range(40 if quick else 1000):
+    for _ in range(25 if quick else 1000):
         yield history(rng, 14)
 
 
@@ -207,7 +209,7 @@ MANIFEST = {
                    "data; else unserved; unchanged files keep their data; unconfigured keys are gone), hence independent of every other "
                    "zone's file and previous state; the mtime skip is sound; the same for every history of SIGHUPs including rejected "
                    "configurations. Proof of the reload function, partial w.r.t. the daemon shell: signal handling, the concurrent catalog "
-                   "swap and timestamp granularity are outside the model; the tie to the code is a differential run of ~300 (quick) histories "
+                   "swap and timestamp granularity are outside the model; the tie to the code is a differential run of ~180 (quick) histories "
                    "against the real quandaryd process over UDP."),
     "level_note": ("Trusted: Coq kernel, extraction, the hand-written model's correspondence to the Rust code (differentially tested against "
                    "the running daemon, not proved), zone-file parsing/validation, signal delivery. The pinned code violated the property "
